@@ -26,6 +26,9 @@ CONSTANTS Starts(_, _),   \* (store, registered built-ins) -> set of <<env id, t
           EnvGet(_, _),   \* (env id, name) -> value of the environment variable; <<>> when unset or empty
           Limit,          \* longest result (CONFIG_BUFF - 1)
           NameMax,        \* longest $-name (127)
+          DirGet(_, _),   \* (env id, path) -> what the file system holds at path: [known, isdir, ents] with ents a sequence of
+                          \* [name, kind]; kind is what the entry IS: "file", "dir", "link-to-file", "link-to-dir",
+                          \* "dangling-link", "fifo"  (the file system is part of the environment of %dirscan)
           AppName(_), AppVersion(_),   \* env id -> program name / version (libast_set_program_name/version: part of the
                                        \* environment of the built-ins, like the variables)
           Obs(_, _, _, _) \* observation hook (op, args, ret, post)
@@ -50,7 +53,7 @@ NmGet == <<103, 101, 116>>  NmPut == <<112, 117, 116>>  NmVersion == <<118, 101,
 NmAppname == <<97, 112, 112, 110, 97, 109, 101>>  NmRandom == <<114, 97, 110, 100, 111, 109>>
 NmExec == <<101, 120, 101, 99>>  NmDirscan == <<100, 105, 114, 115, 99, 97, 110>>
 NmHome == <<72, 79, 77, 69>>
-Claimed == [get |-> NmGet, put |-> NmPut, version |-> NmVersion, appname |-> NmAppname, random |-> NmRandom]
+Claimed == [get |-> NmGet, put |-> NmPut, version |-> NmVersion, appname |-> NmAppname, random |-> NmRandom, dirscan |-> NmDirscan]
 FnNames == DOMAIN Claimed
 
 SetMin(S) == CHOOSE x \in S : \A y \in S : x <= y
@@ -67,10 +70,10 @@ NameAt(t, i, nm) == /\ i + Len(nm) <= Len(t)
 NameAtOdd(t, i, nm) == /\ i + Len(nm) + 1 <= Len(t)
                        /\ \A k \in 1 .. Len(nm) : Lower(t[i + k - 1]) = nm[k]
                        /\ t[i + Len(nm)] = SPC /\ t[i + Len(nm) + 1] = RPAR
-\* texts that could spawn a process or scan a directory are not part of C10 (they belong to C11)
+\* texts that could spawn a process are not part of C10 (they belong to C11)
 Excluded(t) == \E i \in 1 .. Len(t) :
                   \/ t[i] = BQ
-                  \/ t[i] = PCT /\ \E nm \in {NmExec, NmDirscan} : NameAt(t, i + 1, nm) \/ NameAtOdd(t, i + 1, nm)
+                  \/ t[i] = PCT /\ \E nm \in {NmExec} : NameAt(t, i + 1, nm) \/ NameAtOdd(t, i + 1, nm)
 \* index of the ")" matching an already open "(" when scanning from i; 0 if there is none.
 \* C: the argument of a call extends to the matching parenthesis; quotes and backslashes do not hide parentheses.
 \* (Stated without recursion - TLC's recursion costs time quadratic in the depth, and arguments can be 20 000 characters
@@ -97,6 +100,17 @@ Words(t) == LET n == Len(t)
             IN [k \in 1 .. Cardinality(starts) |-> SubSeq(t, Kth(starts, k), Kth(ends, k))]
 AppBuf == 255                                                          \* C: %appname is built in a 256-byte buffer
 Cut(s) == IF Len(s) > Limit THEN SubSeq(s, 1, Limit) ELSE s           \* S: never longer than the limit
+
+(* %dirscan(dir): S (round 5): the names of the entries of dir that ARE regular files in the sense of stat() - symbolic links are
+   followed, so a link to a regular file is listed and a link to a directory, a dangling link, a fifo or a directory is not;
+   C: each name is followed by one blank, dot files are listed; the order is the file system's (E: every order is acceptable).
+   Directories with more than 4 listed names are outside the model (X). *)
+StatRegular(kind) == kind \in {"file", "link-to-file"}
+RegularIn(ents) == {i \in 1 .. Len(ents) : StatRegular(ents[i].kind)}
+Orders(S) == {f \in [1 .. Cardinality(S) -> S] : \A i, j \in 1 .. Cardinality(S) : i # j => f[i] # f[j]}
+RECURSIVE Listing(_, _, _, _)
+Listing(ents, f, k, n) == IF k > n THEN <<>> ELSE ents[f[k]].name \o <<SPC>> \o Listing(ents, f, k + 1, n)
+DirListings(ents) == {Listing(ents, f, 1, Cardinality(RegularIn(ents))) : f \in Orders(RegularIn(ents))}
 
 (* the variable store: ideal finite map kept as an ascending association list *)
 RECURSIVE SeqLess(_, _)
@@ -242,6 +256,9 @@ Builtin(fn, a, st) ==
                                      ELSE <<>>}]
       [] fn = "put"     -> [ok |-> Splittable(a), res |-> {<<>>},                    \* S: put; C: wrong word count -> refused
                             st |-> IF n = 2 THEN PutVar(st, ws[1], ws[2]) ELSE st]
+      [] fn = "dirscan" -> LET d == DirGet(envid, IF n >= 1 THEN ws[1] ELSE <<>>) IN           \* S: the regular files of the directory
+                           [ok |-> Splittable(a) /\ (n = 1 => d.known /\ (d.isdir => Cardinality(RegularIn(d.ents)) <= 4)), st |-> st,
+                            res |-> IF n = 1 /\ d.known /\ d.isdir THEN DirListings(d.ents) ELSE {<<>>}]   \* C: not one word / no directory: nothing
       [] fn = "random"  -> [ok |-> Splittable(a), st |-> st,                         \* S: "one of the words"
                             res |-> IF n = 0 THEN {<<>>} ELSE {ws[i] : i \in 1 .. n}]
 \* the application's built-ins (the harness registers functions of three kinds): 0 returns a copy of its argument,
